@@ -26,6 +26,10 @@ def main():
         try:
             os.makedirs(wt + "/_seed", exist_ok=True)
             shutil.copy(demo, f"{wt}/_seed/demo{n}.py")
+            import glob as _g
+            helpers = [h for h in _g.glob(src + "/*.py") if not os.path.basename(h).startswith("demo")]
+            for h in helpers:
+                shutil.copy(h, f"{wt}/_seed/")
             env = {"PYTHONPATH": wt + "/src"}
             rc_clean, o1 = sh(f"/venv/bin/python _seed/demo{n}.py", cwd=wt, env=env)
             rc, o = sh(f"git apply {patch}", cwd=wt)
@@ -44,6 +48,8 @@ def main():
             dst = f"/verif/seeded/{pid}-{n}"
             os.makedirs(dst, exist_ok=True)
             shutil.copy(patch, dst + "/patch.diff"); shutil.copy(demo, dst + "/demo.py")
+            for h in helpers:
+                shutil.copy(h, dst + "/")
             meta = {
                 "property": pid, "variant": n, "summary": m.get("summary"), "needs_to_manifest": m.get("needs_to_manifest"),
                 "files": m.get("files"), "origin": "independent sub-agent given only the property text and a scratch worktree",
